@@ -22,7 +22,7 @@ import uuid as _uuid
 
 from .rng import stream
 from .log import EventLog
-from .pool import Scheduler, SimPoolFactory, SimHang
+from .pool import Scheduler, SimPoolFactory, ForkPoolFactory, SimHang
 from .simfs import SimClock
 
 WATCH = {
@@ -40,8 +40,12 @@ class _Names:
     """uuid4 drawn from a separate stream (the number of names drawn never perturbs scheduling)"""
 
     def __init__(self, seed):
+        self.seed = seed
         self.rng = stream(seed, 'names')
         self.n = 0
+
+    def reseed(self, tag):
+        self.rng = stream(self.seed, f'names/{tag}')
 
     def uuid4(self):
         self.n += 1
@@ -199,8 +203,7 @@ def _child(d, argv, sim, out_fd):
     faults = FaultPlan(sim.get('faults'), log)
     jobs = res['jobs']
 
-    def task_hook(func, arg, pid, i):
-        r = func(arg)
+    def observe(arg, r, i):
         info = {'task': i, 'regions': [[t.get('contig'), t.get('start'), t.get('end'), t.get('fetch_start'), t.get('fetch_end')] for t in arg[1]],
                 'file': None, 'records': []}
         try:
@@ -214,14 +217,25 @@ def _child(d, argv, sim, out_fd):
                                                 rec.get_tag('ix') if rec.has_tag('ix') else None])
         except Exception as e:     # observation only
             info['observe_error'] = repr(e)
+        return info
+
+    def task_hook(func, arg, pid, i, worker_side=False, parent_side=False):
+        if parent_side:            # forked workers: the observation made inside the worker arrives with the result
+            jobs.append(arg)
+            return None
+        r = func(arg)
+        info = observe(arg, r, i)
+        if worker_side:
+            return r, info
         jobs.append(info)
         return r
 
     wf = {}
     for f in sim.get('worker_faults') or []:
         wf[('*', int(f['task']))] = f['kind']
-    fac = SimPoolFactory(sched, faults=wf, task_hook=task_hook, width=sim.get('width'),
+    fac = (ForkPoolFactory if sim.get('isolation') == 'fork' else SimPoolFactory)(sched, faults=wf, task_hook=task_hook, width=sim.get('width'),
                          exception_factory=lambda i: OSError(errno.EIO, f'injected worker I/O failure in task {i}'))
+    fac.on_worker_start = lambda wid: names.reseed(f'worker{wid}')
     # ---- seams ------------------------------------------------------------
     import datetime as _dt
 
@@ -277,7 +291,11 @@ def _child(d, argv, sim, out_fd):
             off += os.write(out_fd, data[off:off + 65536])
         os.close(out_fd)
 
+    main_pid = os.getpid()
+
     def die(key, c):
+        if os.getpid() != main_pid:     # a forked pool worker reached the crash point: only that worker dies (its result never arrives)
+            os._exit(137)
         res['crashed_at'] = [key[0], key[1], c]
         sys.settrace(None)
         flush_result()
